@@ -679,10 +679,10 @@ def c09_cells(tier):
     out = []
     q = 'quick'
 
-    def fam(pat, mbs, rt, use_to, tier_, tmo, two=False, orders=(0, 1, 2), gmax=7, cmax=12):
+    def fam(pat, mbs, rt, use_to, tier_, tmo, two=False, orders=(0, 1, 2), gmax=7, cmax=12, whos=None):
         kid = [KEYS3.index(c) for c in pat]
         n = len(pat)
-        for who in range(n):
+        for who in (whos if whos is not None else range(n)):
             for order in orders:
                 sig = 'gaps: List[int], cancel_delay: int, batch_dur: int' + (', who2: int, cancel_delay2: int' if two else '')
                 pre = ['len(gaps) == %d and gaps[0] == 0 and all(0 <= g <= %d for g in gaps)' % (n, gmax),
@@ -700,6 +700,7 @@ def c09_cells(tier):
     fam('ab', 2, 0, True, q, 300, orders=(1,))
     fam('aa', 2, 6, False, q, 300, orders=(0,))
     fam('aab', 3, 0, False, q, 400, orders=(2,), gmax=3, cmax=8)
+    fam('aaa', 3, 0, False, q, 400, orders=(0,), gmax=4, cmax=8, whos=(0,))
     out.append(Cell(name='twin_c09_cancel_during_batch', sig='gaps: List[int], cancel_delay: int',
                     pre=['len(gaps) == 2 and gaps[0] == 0 and 0 <= gaps[1] <= 7 and 0 <= cancel_delay <= 12'],
                     body='H.twin_c09(gaps, cancel_delay)', expect='refute', timeout=200, family='c09'))
